@@ -138,6 +138,11 @@ def _generate(ctx, rng):
         yield ("e2e-connect-token", j), {"kind": "e2e-connect", "ids": [rng.getrandbits(48) | 1 for _ in range(nd)],
                                          "endians": [rng.choice(["little", "big"]) for _ in range(nd)], "cred": _cred(rng),
                                          "faults": [f] * rng.choice([1, 2, 3]), "cseed": rng.getrandbits(32), "fault_stage": 2}
+    # no explicit credentials: the region argument alone decides which built-in account signs in (regions alternate within the process)
+    for j in range(12 if quick else 900):
+        yield ("e2e-region", j), {"kind": "e2e", "id": rng.getrandbits(48) | 1, "endian": rng.choice(["little", "big"]), "token": rng.randbytes(64),
+                                  "key": rng.randbytes(32), "cred": _cred(rng), "mode": rng.choice(["broadcast", "single"]), "others": 0,
+                                  "region": ["DE", "KR", "US", "DE"][j % 4]}
     for j in range(60 if quick else 37500):
         yield ("e2e", j), {"kind": "e2e", "id": rng.getrandbits(48) | 1, "endian": rng.choice(["little", "big"]), "token": rng.randbytes(64),
                            "key": rng.randbytes(32), "cred": _cred(rng), "mode": rng.choice(["broadcast", "single"]), "others": rng.randint(0, 2),
@@ -311,6 +316,8 @@ def _e2e(ctx, case):
     did = case["id"]
     token, key = bytes(case["token"]), bytes(case["key"])
     acct, pw = case["cred"]
+    if case.get("region"):
+        acct, pw = DEFAULTS[case["region"]]          # no explicit credentials: the region's built-in account is the only one the server knows
     model = cloudsrv.CloudModel({acct: pw})
     # an unknown id is answered with invented credentials (as the real service does) or - only generated for devices registered
     # under the little-endian id, which is asked for first - with an empty list
@@ -331,12 +338,14 @@ def _e2e(ctx, case):
 
     async def go(loop):
         kw = dict(account=acct, password=pw, get_async_client=model.client_factory(), auto_connect=True)
+        if case.get("region"):
+            kw = dict(region=case["region"], get_async_client=model.client_factory(), auto_connect=True)
         if case["mode"] == "single":
             d = await Discover.discover_single(ip, **kw)
             return [d] if d else []
         return await Discover.discover(**kw)
 
-    k = ("e2e", did, case["endian"], case["mode"], case["others"], case.get("invent", True), bool(case.get("silent_bad")))
+    k = ("e2e", did, case["endian"], case["mode"], case["others"], case.get("invent", True), bool(case.get("silent_bad")), case.get("region"))
     try:
         devs, loop = H.run_virtual(go, net)
     except Exception as e:  # noqa: BLE001
